@@ -860,15 +860,25 @@ EVALS = {
 
 
 def replay(case):
+    # the primitives must be pure functions: a value that is wrong only AFTER other calls (state leaking from one
+    # computation into the next) is replayed together with the calls that preceded it in the worker
+    for prev in case.get("after") or ():
+        EVALS[prev["kind"]](prev)
     return EVALS[case["kind"]](case)
+
+
+_RECENT = {}
 
 
 def _do(acc, case, cls, outcome=None):
     acc.ev()
     acc.cls(*cls)
     found = EVALS[case["kind"]](case)
+    recent = _RECENT.setdefault(case["kind"], [])  # the last calls of the SAME primitive made by this worker
     for key, desc in found:
-        acc.violation(key, desc, case)
+        acc.violation(key, desc, dict(case, after=list(recent)))
+    recent.append(case)
+    del recent[:-2]
     acc.outcome(f"{cls[0]}:{'VIOLATION' if found else (outcome or 'agrees')}")
     return found
 
